@@ -72,6 +72,36 @@ impl<'a> MsgVariant<'a> {
         }
     }
 
+    /// Names given to the variant by forwarded serde attributes:
+    /// `(rename, aliases)` of `#[sv::attr(serde(rename = "..", alias = ".."))]`.
+    fn forwarded_serde_names(&self) -> (Option<String>, Vec<String>) {
+        let mut rename = None;
+        let mut aliases = vec![];
+        for attr in &self.attrs_to_forward {
+            let Ok(syn::Meta::List(list)) = syn::parse2::<syn::Meta>(attr.attrs.clone()) else {
+                continue;
+            };
+            if !list.path.is_ident("serde") {
+                continue;
+            }
+            // Anything unexpected is left for serde itself to report.
+            let _ = list.parse_nested_meta(|meta| {
+                if meta.path.is_ident("rename") || meta.path.is_ident("alias") {
+                    let name: syn::LitStr = meta.value()?.parse()?;
+                    if meta.path.is_ident("alias") {
+                        aliases.push(name.value());
+                    } else {
+                        rename = Some(name.value());
+                    }
+                } else if meta.input.peek(syn::Token![=]) {
+                    let _: syn::Expr = meta.value()?.parse()?;
+                }
+                Ok(())
+            });
+        }
+        (rename, aliases)
+    }
+
     /// Emits message variant
     pub fn emit(&self) -> TokenStream {
         let Self {
@@ -271,10 +301,13 @@ where
     /// derived with `#[serde(rename_all = "snake_case")]`, so this has to follow
     /// serde's renaming rule, which differs from `convert_case`'s for names
     /// containing digits or single letter words (e.g. `Foo2`, `XYZ`).
+    ///
+    /// A `serde(rename = "..")` forwarded to a variant with `#[sv::attr(..)]` replaces
+    /// that name and every `serde(alias = "..")` adds one, as they do for serde.
     pub fn as_names_snake_cased(&self) -> Vec<String> {
         self.variants
             .iter()
-            .map(|variant| {
+            .flat_map(|variant| {
                 let name = variant.name.to_string();
                 let mut snake = String::with_capacity(name.len() + 4);
                 for (i, ch) in name.char_indices() {
@@ -283,7 +316,9 @@ where
                     }
                     snake.push(ch.to_ascii_lowercase());
                 }
-                snake
+                let (rename, mut names) = variant.forwarded_serde_names();
+                names.insert(0, rename.unwrap_or(snake));
+                names
             })
             .collect()
     }
